@@ -216,8 +216,8 @@ func specMin(a int, b int) int {
 
 //@ contract (Options).Marshal
 //@   requires lexOK(b)
-//@   requires forall c uint8 :: {mapval(o, c)} {mapdom(o, c)} ref(o[c]) != ref(b.Buffer.data) && ref(o[c]) != ref(b.Buffer) && ref(o[c]) != ref(b)
-//@   requires ref(o) != ref(b) && ref(o) != ref(b.Buffer) && ref(o) != ref(b.Buffer.data)
+//@   requires forall c uint8 :: {mapval(o, c)} {mapdom(o, c)} o[c] == nil || (ref(o[c]) != ref(b.Buffer.data) && ref(o[c]) != ref(b.Buffer) && ref(o[c]) != ref(b))
+//@   requires o == nil || (ref(o) != ref(b) && ref(o) != ref(b.Buffer) && ref(o) != ref(b.Buffer.data))
 //@   modifies b.Buffer, b.Buffer.data[len(b.Buffer.data):cap(b.Buffer.data)]
 //@   let w0 = string(b.Buffer.data)
 //@   ensures lexGrown(b)
